@@ -89,7 +89,7 @@ def _rename_schema(draw, s, cmap, depth=0):
 
 @st.composite
 def hostile_doc(draw):
-    prof = docs.profile(max_schemas=4, max_props=4, max_ops=3, desc=True, allof=True)
+    prof = docs.profile(max_schemas=4, max_props=4, max_ops=3, desc=True, allof=True, defaults=True, inline_allof=True)
     ir = draw(docs.doc_ir(prof))
     comp_old = [n for n, _ in ir["schemas"]]
     comp_new = draw(names.distinct_hostile(len(comp_old), allow_empty=False,
@@ -101,13 +101,27 @@ def hostile_doc(draw):
         _rename_schema(draw, entry[1], cmap)
     # allOf children: drop properties whose normalised name equals one of the parent's (shared names are C15's subject)
     comps = docs.comp_map(ir)
-    for n, s in ir["schemas"]:
+
+    def _dedupe(s):
+        """allOf compositions (component-level or inline): drop own properties whose normalised name equals an inherited one."""
+        if not isinstance(s, dict):
+            return
         if s.get("k") == "object" and s.get("allOf"):
             inherited = set()
             for m in s["allOf"]:
                 if m["k"] == "ref" and m["name"] in comps:
                     inherited |= {names.norm(p[0]) for p in docs._all_props(comps[m["name"]], comps)}
-            s["props"] = [p for p in s["props"] if names.norm(p[0]) not in inherited] or [["ownprop", {"k": "str"}, False]]
+            s["props"] = [p for p in s["props"] if names.norm(p[0]) not in inherited] or \
+                ([["ownprop", {"k": "str"}, False]] if "ownprop" not in inherited else [])
+        for p in s.get("props", []):
+            _dedupe(p[1])
+        for key in ("items", "addl"):
+            _dedupe(s.get(key))
+        for m in s.get("members", []):
+            _dedupe(m)
+
+    for n, s in ir["schemas"]:
+        _dedupe(s)
     for op in ir["ops"]:
         ps = op["params"]
         used: list[str] = []
@@ -147,7 +161,12 @@ def hostile_doc(draw):
             seen.add(names.norm(op["opid"]))
     ir["title"] = draw(st.one_of(st.just("Verif API"), names.hostile_name().filter(_name_ok)))
     cfg = {"literal_enums": draw(st.booleans()), "docstrings_on_attributes": draw(st.booleans())}
-    return {"ir": ir, "cfg": cfg, "meta": draw(st.sampled_from(["none", "poetry", "pdm", "setup"]))}
+    case = {"ir": ir, "cfg": cfg, "meta": draw(st.sampled_from(["none", "poetry", "pdm", "setup"]))}
+    if draw(st.integers(0, 4)) == 0:
+        # the package is regenerated with --overwrite over an earlier, different document (other tags, schemas, operations)
+        case["previous"] = draw(docs.doc_ir(docs.profile(max_schemas=3, max_props=2, max_ops=3)))
+        case["previous"]["title"] = ir["title"]
+    return case
 
 
 def strategy(tier):
@@ -163,7 +182,13 @@ def run(case, ctx):
     ir = case["ir"]
     doc = docs.render(ir)
     meta = case.get("meta", "none")
-    res = sut.generate(doc, cfg=case.get("cfg") or {}, meta=meta)
+    out_dir = None
+    if case.get("previous"):
+        prev = sut.generate(docs.render(case["previous"]), cfg=case.get("cfg") or {}, meta=meta)
+        if prev.exc is None and prev.accepted and os.path.isdir(prev.out):
+            out_dir = prev.out
+            ctx.label("regenerated_over_previous_document")
+    res = sut.generate(doc, cfg=case.get("cfg") or {}, meta=meta, out=out_dir, overwrite=out_dir is not None)
     try:
         if res.exc is not None:
             ctx.skip("generator_crashed")  # C06's verdict
